@@ -468,6 +468,48 @@ fn run<F: MathFunction>(case: &Case, cx: &mut Cx) -> CheckResult {
                 "child-binding",
                 "simplified shape gives {got} at the traced point, expected {want}"
             );
+            // the same simplification into storage recycled from a DIFFERENT
+            // shape (a storage pool shared between shapes): a donor over the
+            // same variables met in the opposite order plus one of its own
+            {
+                let mut dctx = fidget_core::Context::new();
+                let mut acc = dctx.var(var_v(91_000));
+                for v in free.iter().rev() {
+                    let n = dctx.var(*v);
+                    acc = dctx.add(acc, n).unwrap();
+                }
+                for a in [Var::Z, Var::Y] {
+                    let n = dctx.var(a);
+                    acc = dctx.add(acc, n).unwrap();
+                }
+                let donor = Shape::<F>::new(&dctx, acc).unwrap();
+                let storage = donor.recycle().unwrap_or_default();
+                let mut ws = Default::default();
+                let child2 = shape
+                    .simplify(&tr, storage, &mut ws)
+                    .map_err(|e| Fail::new("simplify-error", format!("{e:?}")))?;
+                ensure!(
+                    child2.inner().vars().len() == child.inner().vars().len()
+                        && child2
+                            .inner()
+                            .vars()
+                            .iter()
+                            .all(|(v, i)| shape.inner().vars().get(&v) == Some(i)),
+                    "child-renumbered",
+                    "simplified into storage recycled from another shape: the child's variable map differs from its parent's"
+                );
+                let cpt2 = child2.ez_point_tape();
+                let got = pe
+                    .eval_raw(&cpt2, x, y, z, mat.as_ref(), &sv)
+                    .map_err(|e| Fail::new("point-eval-error", format!("{e:?}")))?
+                    .0;
+                cx.ev.count("simplified_into_foreign_storage_comparisons");
+                ensure!(
+                    got == want,
+                    "child-binding",
+                    "simplified into storage recycled from another shape: {got} at the traced point, expected {want}"
+                );
+            }
         }
     }
     // non-trivial: >= 3 free variables whose slot order differs from their index order
